@@ -7,13 +7,14 @@
 //	j<d> 200 + JSON result            s<d> 200 + the result framed as one SSE event
 //	J<d> 200 + JSON-RPC error -32601  S<d> the same error framed as one SSE event
 //	4<d> / 0<d> / 5<d>  HTTP 404 / 400 / 501 carrying a JSON-RPC -32601 error body
+//	i<d> / k<d>         HTTP 500 / 503 (statuses the client treats as transient) carrying a -32601 error body
 //	x<d> 200 + JSON-RPC error -32603  y<d> HTTP 400 carrying a -32603 body   z<d> HTTP 500 carrying a -32603 body
 //	r<d> HTTP 503 without body        t<d> the transport fails (RoundTrip returns an error)
 //	n    silence: nothing comes back before the request is abandoned
 //
 // each after d ns (a delay beyond the ping timeout is a slow answer: the ping has timed out by then).
 // The outcome pattern handed to the Lean model (`script=`) is derived from WHAT THE PEER SENT, not from
-// the error value the SDK made of it: j/s = answered, J/S/4/0/5 = the peer reports ping as unsupported
+// the error value the SDK made of it: j/s = answered, J/S/4/0/5/i/k = the peer reports ping as unsupported
 // (method-not-found), x/y/z/r/t = another failure, n = never.  Left out: a non-2xx status without a
 // JSON-RPC body other than the transient ones (502/503/504/429): the transport treats that as the end of
 // the connection (404: session gone), which ends the session but not by keep-alive.
@@ -37,7 +38,7 @@ import (
 	"time"
 )
 
-const khKinds = "jsJS405xyzrtn"
+const khKinds = "jsJS405ikxyzrtn"
 
 type khStep struct {
 	kind byte
@@ -49,7 +50,7 @@ func (st khStep) model() kaStep {
 	switch st.kind {
 	case 'j', 's':
 		return kaStep{'a', st.d}
-	case 'J', 'S', '4', '0', '5':
+	case 'J', 'S', '4', '0', '5', 'i', 'k':
 		return kaStep{'m', st.d}
 	case 'n':
 		return kaStep{'n', 0}
@@ -91,7 +92,17 @@ func (c *khCase) op() string {
 	if len(s) > 0 {
 		sc, wi = strings.Join(s, ","), strings.Join(w, ",")
 	}
-	return fmt.Sprintf("kas side=http I=%d T=%d script=%s cancel=%d wire=%s pv=%s", c.I, c.T, sc, c.tc, wi, c.pv)
+	var tm []string // ticks at which method-not-found is reported on a transient HTTP status
+	for i, w := range c.wire {
+		if w.kind == 'i' || w.kind == 'k' {
+			tm = append(tm, strconv.Itoa(i+1))
+		}
+	}
+	tmnf := "-"
+	if len(tm) > 0 {
+		tmnf = strings.Join(tm, ",")
+	}
+	return fmt.Sprintf("kas side=http I=%d T=%d script=%s cancel=%d wire=%s pv=%s tmnf=%s", c.I, c.T, sc, c.tc, wi, c.pv, tmnf)
 }
 
 func khParse(op string) (*khCase, bool) {
@@ -239,6 +250,10 @@ func (f *khServer) RoundTrip(req *http.Request) (*http.Response, error) {
 		return khReply(req, 400, "application/json", rpcErr(-32601, mnf)), nil
 	case '5':
 		return khReply(req, 501, "application/json", rpcErr(-32601, mnf)), nil
+	case 'i':
+		return khReply(req, 500, "application/json", rpcErr(-32601, mnf)), nil
+	case 'k':
+		return khReply(req, 503, "application/json", rpcErr(-32601, mnf)), nil
 	case 'x':
 		return khReply(req, 200, "application/json", rpcErr(-32603, other)), nil
 	case 'y':
